@@ -226,6 +226,29 @@ static void run_line(char *line) {
         }
         parseFrame(it->recvbuf, it);
         if (lin) { show_fsm(M); show_fsm(S); }
+    } else if (!strcmp(op, "note")) {
+        fprintf(vp_out, "ok\n");
+    } else if (!strcmp(op, "relay")) {
+        /* relay A B [zero]: every frame interface A transmitted during the previous op is delivered, unmodified, to B */
+        int A = nt >= 2 ? parse_idx(tok[1], VP_MAX_IFACE) : -1;
+        int Bi = nt >= 3 ? parse_idx(tok[2], VP_MAX_IFACE) : -1;
+        if (A < 0 || Bi < 0 || !vp_ifaces[A].used || !vp_ifaces[Bi].used) { bad(); goto end; }
+        bool zero = (nt > 3 && !strcmp(tok[3], "zero"));
+        vp_iface *it = &vp_ifaces[Bi];
+        unsigned n = vp_prev_tx_n;
+        struct vp_txrec *recs = malloc(sizeof(*recs) * (n ? n : 1));
+        memcpy(recs, vp_prev_tx, sizeof(*recs) * n);
+        for (unsigned i = 0; i < n; i++) recs[i].data = memcpy(malloc(recs[i].len ? recs[i].len : 1), recs[i].data, recs[i].len);
+        for (unsigned i = 0; i < n; i++) {
+            if (recs[i].iface == A && recs[i].len <= it->mtu) {
+                memcpy(it->recvbuf, recs[i].data, recs[i].len);
+                if (zero) memset(it->recvbuf + recs[i].len, 0, it->mtu - recs[i].len);
+                fprintf(vp_out, "deliver %d ", Bi); vp_hex(vp_out, recs[i].data, recs[i].len); fputc('\n', vp_out);
+                parseFrame(it->recvbuf, it);
+            }
+            free(recs[i].data);
+        }
+        free(recs);
     } else if (!strcmp(op, "clock")) {
         uint64_t d; if (nt != 2 || !parse_u64(tok[1], &d)) { bad(); goto end; }
         vp_clock_ms += d;
@@ -397,6 +420,7 @@ static void run_line(char *line) {
     }
 end:
     vp_print_end();
+    vp_rotate_tx();
 }
 
 static void run_one(char *line, int flush_each) {
